@@ -349,8 +349,11 @@ def kfTagDup (z : TimeZone) : String := kfTag z
 def kfTagF1 (z : TimeZone) : String := kfTag z
 
 def findOracles (z : TimeZone) (y mo d h mi s ns : Int) (rhs : List String) : Verdicts :=
-  let tag := kfTagF1 z
-  let tagDup := kfTagDup z
+  -- F5: the search guards the searched (local) year, the lookup the UTC year of the instant: in the two
+  -- outermost guarded years a candidate can fall into a UTC year the lookup refuses
+  let tagEdge := if (ruleOf z).isSome && (y == i32Max - 2 || y == i32Min + 2) then "[KF:search_year_guard_edge]" else ""
+  let tag := if kfTagF1 z != "" then kfTagF1 z else tagEdge
+  let tagDup := if kfTagDup z != "" then kfTagDup z else tagEdge
   match fieldsError y mo d h mi s ns with
   | some e => [("C05.search_refuses_invalid_fields", rhs == [e])]
   | none =>
